@@ -6,3 +6,5 @@ import FP.Props.C01
 #print axioms FP.Props.C01.conversions_total
 #print axioms FP.Props.C01.calendar_total
 #print axioms FP.Props.C01.patch_total
+#print axioms FP.Props.C01.evaluator_never_crashes
+#print axioms FP.Props.C01.compile_evaluate_never_crash
